@@ -8,8 +8,8 @@ import time
 from . import assemble
 
 VERIF = assemble.VERIF
-CRATE = os.path.join(VERIF, "kani")
-TARGET = os.path.join(VERIF, ".cache", "kani-target")
+CRATE = os.environ.get("VERIF_KANI_CRATE") or os.path.join(VERIF, "kani")
+TARGET = os.path.join(os.environ.get("VERIF_CACHE") or os.path.join(VERIF, ".cache"), "kani-target")
 
 
 def run_harnesses(c):
